@@ -158,7 +158,9 @@ public:
     IndexType getIndexFromPosition(const PositionType& inPos) const {
         std::array<long int,Dim> host;
         for(long int idxDim = 0 ; idxDim < Dim ; ++idxDim){
-            host[idxDim] = getTreeCoordinate( inPos[idxDim] - configuration.getBoxCorner()[idxDim], idxDim);
+            // relative to the centre first: for a position inside the closed box |x - centre| <= width/2 survives the rounding,
+            // so the value handed over is in [0, width] (x - corner can exceed the width by an ulp when the corner was rounded down)
+            host[idxDim] = getTreeCoordinate( (inPos[idxDim] - configuration.getBoxCenter()[idxDim]) + configuration.getBoxWidths()[idxDim]/2, idxDim);
         }
 
         return getIndexFromBoxPos(host);
